@@ -115,7 +115,8 @@ impl<'a> RefName<'a> {
     pub(crate) fn from_node(xot: &'a Xot, node: Node, name_id: NameId) -> Result<Self, Error> {
         let namespace_id = xot.namespace_for_name(name_id);
         let prefix_id = if namespace_id != xot.no_namespace() {
-            xot.prefix_for_namespace(node, namespace_id)
+            // the empty prefix is of no use for an attribute node
+            xot.prefix_for_namespace_impl(node, namespace_id, xot.is_attribute_node(node))
                 .ok_or_else(|| Error::MissingPrefix(xot.namespace_str(namespace_id).to_string()))?
         } else {
             xot.empty_prefix()
